@@ -129,11 +129,15 @@ type Cluster struct {
 	All    []*NodeH // every incarnation
 	logger *zap.Logger
 	mu     sync.Mutex
+	OnReply func(simnet.Call)
 }
 
 func NewCluster(p *Plan) *Cluster {
 	c := &Cluster{Net: simnet.New(p.Net), Plan: p, Slots: make([]*NodeH, len(p.Nodes)), logger: zap.NewNop()}
 	c.Net.OnReply = func(call simnet.Call) {
+		if c.OnReply != nil {
+			c.OnReply(call)
+		}
 		switch call.Method {
 		case "RequestToJoin", "FinishJoin", "RequestToLeave", "FinishLeave", "Import":
 			body := ""
@@ -195,6 +199,26 @@ func (c *Cluster) Start(i int) *NodeH {
 	c.All = append(c.All, h)
 	c.mu.Unlock()
 	return h
+}
+
+// StartSpare creates a node outside the planned slots with the given id.
+func (c *Cluster) StartSpare(id uint64) *NodeH {
+	c.mu.Lock()
+	i := len(c.Slots)
+	c.Slots = append(c.Slots, nil)
+	c.Plan.Nodes = append(c.Plan.Nodes, NodeSpec{ID: id, Backend: "memory"})
+	c.mu.Unlock()
+	return c.Start(i)
+}
+
+// ByName finds the current or past incarnation with the given address.
+func (c *Cluster) ByName(name string) *NodeH {
+	for _, h := range c.All {
+		if h.Name == name {
+			return h
+		}
+	}
+	return nil
 }
 
 // Remote returns a RemoteNode handle for slot i as seen from slot `from`.
